@@ -17,6 +17,7 @@ import (
 	"context"
 	"crypto/tls"
 	"io"
+	"io/ioutil"
 	"math"
 	"net"
 	"reflect"
@@ -145,6 +146,9 @@ func (h *Handler) receive(ctx context.Context, conn net.Conn, queue chan data, e
 				return
 			}
 			if length > h.Service.MaxRequestLength {
+				// Let the client finish sending before it is told: the connection is closed after the
+				// answer, and a client that is still writing then sees a reset instead of the answer.
+				_, _ = io.CopyN(ioutil.Discard, conn, int64(length))
 				h.sendResponse(ctx, queue, index, nil, core.ErrRequestEntityTooLarge)
 				return
 			}
